@@ -19,7 +19,7 @@ RULE = (
     "The whole alteration set is also played at the RPC-client level against a scripted security context that leaves data_readonly buffers unsigned (so 'header signing off' really is off): the stub handed to the caller must be byte-for-byte the sealed plaintext, or an exception. Trailer removal is combined with every value of the header flags byte. Oracle: (a) and (f) must raise; otherwise raise, or return exactly what the genuine reply yields (unprotect: the plaintext; protect: a blob that names the DC's key and opens with the genuine "
     "root key). A blob that opens with the attacker's key, or a plaintext obtained through an unsealed reply, is the violation. Non-trivial = the tampered reply reached the client; distinct by alteration."
     " Lifecycle part: the authentication provider of a finished connection handed to a NEW client object whose peer is an impostor without keys (sync, async, lenient / strict provider); close() from another task while a request is in flight and the reply that arrives is unsealed - the impostor's stub is never returned and no request leaves unsealed."
-    ' Alterations include the sealed reply replaced by an unsealed fault PDU that carries a stub (5 status codes incl. 0 x 3 bodies x 3 flag values).'
+    ' Alterations include the sealed reply replaced by an unsealed fault PDU that carries a stub (5 status codes incl. 0 x 3 bodies x 3 flag values), and by an unsealed fault (3 status codes x 4 flag values incl. PFC_DID_NOT_EXECUTE) followed on the same stream by an unsealed response or by the authentic reply (72 sequences).'
 )
 ASSUME = ["pyspnego's NTLM implementation is the security context (both ends)", "a client blocking on a shortened/lengthened frame is an error outcome (the real peer would close)"]
 BOUND = {"quick": "bit flips: header/trailer/signature/body edges + bit0 of each body byte, header signing on; sign-off subset", "thorough": "every single-bit flip, both header-signing modes, both operations, sync + async"}
@@ -124,6 +124,13 @@ def alterations(tier: str, sealed_len: int, body_len: int, sign: bool) -> t.List
         for body in ("evil-other", "genuine", "empty"):
             for fl in (3, 0x23, 0x03 | 0x40):
                 alts.append((f"asfault:{status:#x}:{body}:{fl:#x}", ("asfault", status, body, fl)))
+    # an unsealed fault (with and without PFC_DID_NOT_EXECUTE, the "safe to call again" flag) FOLLOWED by a second PDU on the same stream: an
+    # unsealed response with a stub, or the authentic sealed reply - a client that calls again must protect and verify the second exchange too
+    for status in (0x1C010003, 0, 0x000006BB):
+        for fl in (0x23, 0x03, 0x20, 0x22):
+            for body in ("evil-other", "genuine"):
+                for follow in ("notrailer", "sealed", "notrailer-twice"):
+                    alts.append((f"fault-then:{status:#x}:{fl:#x}:{body}:{follow}", ("fault-then", status, fl, body, follow)))
     alts.append(("integrity-level", ("integrity",)))
     alts.append(("other-connection-context", ("otherctx",)))
     alts.append(("truncate-signature", ("len", 10, -4, True)))
@@ -147,6 +154,13 @@ def apply(desc, sealed: bytes, info: dict, st: dict, op: str, sd: bytes) -> byte
         body = b"" if which == "empty" else (info["plain_stub"] if which == "genuine" else evil_stub(st, "other", op, sd))
         call_id = struct.unpack("<I", sealed[12:16])[0]
         return rpc.enc_fault(call_id, struct.unpack("<H", sealed[20:22])[0], status, stub=body, flags=fl)
+    if k == "fault-then":
+        _, status, fl, which, follow = desc
+        body = info["plain_stub"] if which == "genuine" else evil_stub(st, "other", op, sd)
+        call_id = struct.unpack("<I", sealed[12:16])[0]
+        fault = rpc.enc_fault(call_id, struct.unpack("<H", sealed[20:22])[0], status, stub=b"", flags=fl)
+        second = sealed if follow == "sealed" else strip_trailer(sealed, info, body)
+        return fault + second * (2 if follow == "notrailer-twice" else 1)
     if k == "flip":
         b = bytearray(sealed)
         b[desc[1] // 8] ^= 1 << (desc[1] % 8)
